@@ -38,7 +38,7 @@ def competitor_scenario(r, coin="bitcoin", callback="csvdump", T=None, kinds=Non
         extra = [K.Tx([(GC.rb(r, 32), 0, b"\x01\x01", 0xffffffff)], [(r.randrange(10**9), GC.spk(r, coin, "p2pkh"))]) for _ in range(r.randrange(0, 2))]
         return K.Block([cb] + extra, prev=prev, time=r.randrange(1, 1 << 31), nonce=r.randrange(1 << 32))
 
-    kinds = kinds or ["header-only", "stale", "failed", "failed-child", "reorged", "stale-above", "failed-above", "header-above", "foreign-keys"]
+    kinds = kinds or ["header-only", "stale", "failed", "failed-child", "reorged", "stale-above", "failed-above", "header-above", "foreign-keys", "invalidated", "invalidated"]
     n_comp = r.randrange(1, 6)
     for _ in range(n_comp):
         kind = r.choice(kinds)
@@ -67,6 +67,20 @@ def competitor_scenario(r, coin="bitcoin", callback="csvdump", T=None, kinds=Non
             off = store(b) if with_data else 0
             s.kvs.append(K.record(b.hash(), h, st, len(b.txs), comp_file_no, off, b.header(), undo=5))
             notes.append((kind, h))
+        elif kind == "invalidated":
+            # a branch that was connected once (validity VALID_SCRIPTS, data + undo) and then invalidated (invalidateblock):
+            # its fork block carries FAILED_VALID, the descendants FAILED_CHILD; it may reach above the active tip
+            fork = r.randrange(0, T + 1)
+            length = r.randrange(1, 4)
+            prev = active[fork].hash()
+            for j in range(length):
+                h = fork + 1 + j
+                b = grind(mkblock(prev, h), r.random() < 0.8, active[min(h, T)].hash(), r)
+                off = store(b)
+                st = K.ACTIVE | (K.FAILED_VALID if j == 0 else K.FAILED_CHILD)
+                s.kvs.append(K.record(b.hash(), h, st, len(b.txs), comp_file_no, off, b.header(), undo=11))
+                prev = b.hash()
+            notes.append((kind, fork, length))
         elif kind == "reorged" and T >= 3:
             # once-active branch forking below the tip, tip of the branch strictly below T
             fork = r.randrange(0, T - 1)
